@@ -5,6 +5,7 @@ import Driver.Feeder
 import Driver.Dist
 import Driver.Config
 import Driver.Api
+import Driver.Tiles
 open Std
 namespace Drv
 
@@ -45,6 +46,13 @@ def handle (st : St) (n : Nat) (line : String) : Result := Id.run do
   | "FD" :: _ => return handleFD st n toks
   | "DS" :: _ => return handleDS st n toks
   | "A" :: _ => return handleA st n toks
+  | "TP" :: _ => return handleTP st n toks
+  | "TF" :: _ => return handleTF st n toks
+  | "TL" :: _ => return handleTL st n toks
+  | ["TREE", _, leaves] =>
+    match parseList leaves with
+    | some l => return { st := { st with treeLeaves := l }, out := [] }
+    | none => return { st, out := [s!"BAD {n} TREE"] }
   | "ISO" :: rest =>
     let m := (field rest "merged").getD "?"
     let a := (field rest "alone").getD "!"
